@@ -77,10 +77,10 @@ theorem shiftFE_eq (k : ℕ) (hk : k ≤ 52) (eps : ℚ) (h0 : pow2 (-(k : ℤ))
 
 /-! ### the NBD probability parameter as the code computes it in float64 -/
 
-/-- for doubles 0 < mean ≤ var the float64 value of `1.0 - ((var - mean) / var)` lies in [0, 1]: scipy never sees a
-    probability outside the unit interval (both ends are attained: 1 at var = mean, 0 for var ≳ 2^54·mean) -/
-theorem upsilonF_range {mean var : ℚ} (hv : IsF64 var) (hm : 0 < mean) (hmv : mean ≤ var) :
-    0 ≤ upsilonF mean var ∧ upsilonF mean var ≤ 1 := by
+/-- for doubles 0 < mean ≤ var the OLD formula `1.0 - ((var - mean) / var)` gives a double in [0, 1] (both ends are
+    attained: 1 at var = mean, 0 for var ≳ 2^54·mean — the finding repaired by D47) -/
+theorem upsilonOldF_range {mean var : ℚ} (hv : IsF64 var) (hm : 0 < mean) (hmv : mean ≤ var) :
+    0 ≤ upsilonOldF mean var ∧ upsilonOldF mean var ≤ 1 := by
   have hv0 : 0 < var := lt_of_lt_of_le hm hmv
   have a0 : 0 ≤ fsub var mean := by
     unfold fsub; exact fl64_nonneg (by linarith)
@@ -94,12 +94,39 @@ theorem upsilonF_range {mean var : ℚ} (hv : IsF64 var) (hm : 0 < mean) (hmv : 
     unfold fdiv
     calc fl64 (fsub var mean / var) ≤ fl64 1 := fl64_mono ((div_le_one hv0).mpr a1)
       _ = 1 := fl64_one
-  unfold upsilonF
+  unfold upsilonOldF
   constructor
   · exact fl64_nonneg (x := 1 - fdiv (fsub var mean) var) (by linarith)
   · calc fsub 1 (fdiv (fsub var mean) var) = fl64 (1 - fdiv (fsub var mean) var) := rfl
       _ ≤ fl64 1 := fl64_mono (by linarith)
       _ = 1 := fl64_one
+
+/-- the repaired formula `mean / var` (one float64 operation): in [0, 1] for 0 < mean ≤ var -/
+theorem upsilonF_range {mean var : ℚ} (hm : 0 < mean) (hmv : mean ≤ var) :
+    0 ≤ upsilonF mean var ∧ upsilonF mean var ≤ 1 := by
+  have hv0 : 0 < var := lt_of_lt_of_le hm hmv
+  unfold upsilonF fdiv
+  constructor
+  · exact fl64_nonneg (div_nonneg hm.le hv0.le)
+  · calc fl64 (mean / var) ≤ fl64 1 := fl64_mono ((div_le_one hv0).mpr hmv)
+      _ = 1 := fl64_one
+
+/-- ... correctly rounded: relative error at most 2^-53 whenever the quotient is in the normal range -/
+theorem upsilonF_rel_err {mean var : ℚ} (hm : 0 < mean) (hv : 0 < var) (hn : pow2 (-1022) ≤ mean / var) :
+    |upsilonF mean var - mean / var| ≤ pow2 (-53) * (mean / var) := by
+  have hq : 0 < mean / var := div_pos hm hv
+  have := fl64_rel_err (x := mean / var) (by rwa [abs_of_pos hq])
+  rwa [abs_of_pos hq] at this
+
+/-- ... hence never 0 there (the degenerate law of the old formula cannot occur): p ≥ (1 − 2^-53)·mean/var > 0 -/
+theorem upsilonF_pos {mean var : ℚ} (hm : 0 < mean) (hv : 0 < var) (hn : pow2 (-1022) ≤ mean / var) :
+    (1 - pow2 (-53)) * (mean / var) ≤ upsilonF mean var ∧ 0 < upsilonF mean var := by
+  have hq : 0 < mean / var := div_pos hm hv
+  have h := upsilonF_rel_err hm hv hn
+  rw [abs_le] at h
+  have h53 : pow2 (-53) < 1 := by rw [pow2_eq_zpow]; norm_num
+  have lo : (1 - pow2 (-53)) * (mean / var) ≤ upsilonF mean var := by linarith [h.1]
+  exact ⟨lo, lt_of_lt_of_le (mul_pos (by linarith) hq) lo⟩
 
 /-! ### histories of `scale` / `scale_to_test_date` -/
 
